@@ -67,6 +67,23 @@ func genInfluxLineMetric(r *rand.Rand, cf *cfg, idx int) *lmetric {
 	return m
 }
 
+// influxPrecisions: the request's precision parameter and the number of milliseconds (positive) or the
+// number of units per millisecond (negative) of one unit — the harness's own table, from the line
+// protocol's definition, not from lindb.
+var influxPrecisions = []struct {
+	name string
+	unit int64
+}{{"ms", 1}, {"ms", 1}, {"ms", 1}, {"ns", -1000000}, {"us", -1000}, {"s", 1000}, {"m", 60000}, {"h", 3600000}, {"S", 1000}, {"Ns", -1000000}}
+
+// renderTs: the literal that stands for the millisecond timestamp ts (a multiple of the unit) in the given
+// precision; finer precisions carry a random sub-millisecond remainder.
+func renderTs(r *rand.Rand, ts int64, unit int64) string {
+	if unit > 0 {
+		return strconv.FormatInt(ts/unit, 10)
+	}
+	return strconv.FormatInt(ts*(-unit)+r.Int63n(-unit), 10)
+}
+
 type influxLine struct {
 	kind string // ok | badts | strfields | badtags | comment   (what the scanning layer makes of it)
 	m    *lmetric
@@ -74,8 +91,24 @@ type influxLine struct {
 }
 
 // genInfluxLine: the line of a generated metric, valid or made invalid at a chosen stage.
-func genInfluxLine(r *rand.Rand, cf *cfg, idx int) influxLine {
+func genInfluxLine(r *rand.Rand, cf *cfg, idx int, unit int64) influxLine {
 	m := genInfluxLineMetric(r, cf, idx)
+	if unit > 1 {
+		m.ts -= m.ts % unit
+	}
+	l := genInfluxLineMs(r, cf, m)
+	if unit != 1 {
+		// the timestamp literal in the request's precision
+		if sp := strings.LastIndex(l.text, " "); sp >= 0 && l.text[sp+1:] == strconv.FormatInt(m.ts, 10) {
+			l.text = l.text[:sp+1] + renderTs(r, m.ts, unit)
+		} else if strings.HasSuffix(l.text, strconv.FormatInt(m.ts, 10)+"x") {
+			l.text = strings.TrimSuffix(l.text, strconv.FormatInt(m.ts, 10)+"x") + renderTs(r, m.ts, unit) + "x"
+		}
+	}
+	return l
+}
+
+func genInfluxLineMs(r *rand.Rand, cf *cfg, m *lmetric) influxLine {
 	spell := func(v fval) string { return nonFiniteSpellings[v.kind][map[int]int{1: 0, 2: 5, 3: 3}[v.kind]] } // NaN, Infinity, -Infinity
 	line, _ := m.toInfluxSp(spell)
 	sp1 := strings.LastIndex(line, " ")
@@ -129,16 +162,18 @@ func caseInfluxStream(c *core.Ctx, r *rand.Rand) {
 	}
 	ns := cf.reqNs
 	n := 2 + r.Intn(7)
+	prec := influxPrecisions[r.Intn(len(influxPrecisions))]
 	var lines []influxLine
 	for i := 0; i < n; i++ {
-		lines = append(lines, genInfluxLine(r, cf, i))
+		lines = append(lines, genInfluxLine(r, cf, i, prec.unit))
 	}
+	c.Branch("influx-stream/precision-" + strings.ToLower(prec.name))
 	c.Op(cf.enc(), "ok")
 	// every line alone: what the line is stored as when nothing else is in the request
 	alone := make([]string, n)
 	for i, l := range lines {
 		alone[i] = "rej"
-		b, err := parseInflux(cf, ns, []string{l.text})
+		b, err := parseInfluxP(cf, ns, []string{l.text}, prec.name)
 		if err != nil || b == nil {
 			continue
 		}
@@ -148,6 +183,12 @@ func caseInfluxStream(c *core.Ctx, r *rand.Rand) {
 			if o, _ := observe(&b.Rows()[0]); o != nil {
 				alone[i] = o.line(l.m.ts, 0, 0)
 				checkIdentity(c, "influx", o)
+				if o.ts != l.m.ts {
+					c.Fail("influx-timestamp-not-as-sent", fmt.Sprintf("line %q with precision=%s stands for %d ms, stored timestamp %d", l.text, prec.name, l.m.ts, o.ts))
+				}
+				if sp := strings.LastIndex(l.text, " "); sp >= 0 {
+					c.Op("its "+strings.ToLower(prec.name)+" "+l.text[sp+1:], strconv.FormatInt(o.ts, 10))
+				}
 			} else {
 				alone[i] = "unreadable"
 			}
@@ -176,7 +217,7 @@ func caseInfluxStream(c *core.Ctx, r *rand.Rand) {
 			texts = append(texts, l.text)
 		}
 		c.Op("inew", "ok")
-		b, err := parseInflux(cf, ns, texts)
+		b, err := parseInfluxP(cf, ns, texts, prec.name)
 		if err != nil || b == nil {
 			c.Fail("influx-request-failed", fmt.Sprintf("request %q: %v", texts, err))
 			return
